@@ -480,6 +480,17 @@ impl Db {
     }
 }
 
+/// the comparison key an engine value would have, for a harness value
+pub fn to_sql_key(v: &Value) -> String {
+    match to_sql(v) {
+        SqlValue::Null => V::Null.key(),
+        SqlValue::Integer(i) => V::Int(i).key(),
+        SqlValue::Real(f) => V::Real(f).key(),
+        SqlValue::Text(s) => V::Text(s).key(),
+        SqlValue::Blob(b) => V::Blob(b).key(),
+    }
+}
+
 pub fn quote_ident(s: &str) -> String {
     format!("\"{}\"", s.replace('"', "\"\""))
 }
